@@ -75,8 +75,13 @@ func (s *service) CredentialVerificationServiceCompleteFlow(ctx context.Context,
 }
 
 func (s *service) VerifiedCredentialsList(request *protocoltypes.VerifiedCredentialsList_Request, server protocoltypes.ProtocolService_VerifiedCredentialsListServer) error {
+	accountGroup := s.getAccountGroup()
+	if accountGroup == nil {
+		return errcode.ErrCode_ErrGroupMissing
+	}
+
 	now := time.Now().UnixNano()
-	credentials := s.accountGroupCtx.metadataStore.ListVerifiedCredentials()
+	credentials := accountGroup.metadataStore.ListVerifiedCredentials()
 
 	for _, credential := range credentials {
 		if request.FilterIdentifier != "" && credential.Identifier != request.FilterIdentifier {
